@@ -99,24 +99,6 @@ theorem net_weights_length_checked :
 
 /-! ### nets -/
 
-/-- some pin cell of argument `i` is outside `[0, nbCells)` -/
-def pinOutOfRange (i : Nat) : Cond := .anyElem i (.or (.lt .elem (.lit 0)) (.le .nbCells .elem))
-
-theorem pinOutOfRange_eval (env : Env) (i : Nat) :
-    Cond.eval env 0 (pinOutOfRange i) = true ↔ ∃ c ∈ (env.arg i).vals, c < 0 ∨ env.nbCells ≤ c := by
-  simp only [pinOutOfRange, Cond.eval, Expr.eval, List.any_eq_true, Bool.or_eq_true]
-  constructor
-  · rintro ⟨c, hc, h⟩
-    refine ⟨c, hc, ?_⟩
-    rcases h with h | h
-    · exact Or.inl (of_decide_eq_true h)
-    · exact Or.inr (of_decide_eq_true h)
-  · rintro ⟨c, hc, h⟩
-    refine ⟨c, hc, ?_⟩
-    rcases h with h | h
-    · exact Or.inl (decide_eq_true h)
-    · exact Or.inr (decide_eq_true h)
-
 /-- `addNet(cells, xOffsets, yOffsets)`: offsets of a different length than the cells, or a pin cell
 outside the circuit, are refused with the circuit unchanged. -/
 theorem nets_validated_addNet :
